@@ -308,6 +308,42 @@ def _solver_runs(out, workdir):
             out.violation({"solver_run": {"equation": type(eq).__name__, "settings": {k2: str(v) for k2, v in st.items()}}, "fails": fails})
 
 
+def _long_runs(out, workdir):
+    """histories of 12, 103 and 1001 frames: the file written at the end holds the frames in the order they were recorded"""
+    from pde import CartesianGrid, ScalarField
+
+    from droplets import EmulsionTimeCourse
+    from droplets.trackers import DropletTracker
+
+    grid = CartesianGrid([[0, 8], [0, 8]], 8, periodic=[True, False])
+    for n in (12, 103, 1001):
+        path = os.path.join(workdir, f"long{n}.h5")
+        tr = DropletTracker(1, filename=path)
+        fails = []
+        try:
+            with warnings.catch_warnings():
+                warnings.simplefilter("ignore")
+                for k in range(n):
+                    f = ScalarField(grid, 0.0)
+                    if k % 3:
+                        f.data[1 + k % 4 : 4 + k % 4, 2:5] = 1.0
+                    if k % 7 == 0:
+                        f.data[6, 6] = 1.0
+                    tr.handle(f, 0.5 * k)
+                tr.finalize()
+                back = EmulsionTimeCourse.from_file(path, progress=False)
+            if len(tr.data) != n or [float(t) for t in tr.data.times] != [0.5 * k for k in range(n)]:
+                fails.append(f"{n} frames handled, {len(tr.data)} recorded / times differ")
+            if not _same_tc(back, tr.data):
+                fails.append(f"file of a history of {n} frames does not read back equal to the recorded data (order of frames)")
+        except Exception as exc:  # noqa: BLE001
+            fails.append(f"raised {type(exc).__name__}: {exc}")
+        out.evaluations += 1
+        if fails:
+            out.violation({"long_history": n, "fails": fails})
+    out.parts["long_histories"] = {"frames": [12, 103, 1001]}
+
+
 def run(out: core.Outcome) -> None:
     import multiprocessing as mp
 
@@ -348,6 +384,7 @@ def run(out: core.Outcome) -> None:
             out.sample({"config": name, "history": {k: r.printed[len(r.printed) // 2][k] for k in ("sim", "settings", "source", "method")}})
         _ls_grids(out)
         _solver_runs(out, str(workdir))
+        _long_runs(out, str(workdir))
     finally:
         shutil.rmtree(workdir, ignore_errors=True)
     out.explanation = out.rule
